@@ -1,49 +1,389 @@
 // Events judged by Layer F (the TLA+ transcription of FIPS 204 evaluated by TLC):
-// KeyGen, SignInternal, VerifyInternal, Sign, Verify, Format.
+// KeyGen, KeyGenLite, KeyGenBoth, SignInternal, Sign, SignFactor, Same, VerifyInternal, Verify.
 use crate::api::*;
 use crate::for_set;
+use crate::refmath;
 use crate::util::*;
 use fips204::verif_hooks as vh;
-use serde_json::json;
+use serde_json::{json, Value};
+use sha3::digest::{ExtendableOutput, Update, XofReader};
 
-fn msg_of(p: &mut Prng, class: u64) -> Vec<u8> {
-    let n = match class % 6 { 0 => 0, 1 => 1, 2 => 135, 3 => 136, 4 => 137, _ => 33 + p.below(200) as usize };
+pub fn shake256(parts: &[&[u8]], n: usize) -> Vec<u8> {
+    let mut h = sha3::Shake256::default();
+    for p in parts { h.update(p); }
+    let mut out = vec![0u8; n];
+    h.finalize_xof().read(&mut out);
+    out
+}
+
+pub fn msg_of(p: &mut Prng, class: u64) -> Vec<u8> {
+    let n = match class % 7 { 0 => 0, 1 => 1, 2 => 135, 3 => 136, 4 => 137, 5 => 4096, _ => 33 + p.below(200) as usize };
+    p.bytes(n)
+}
+pub fn ctx_of(p: &mut Prng, class: u64) -> Vec<u8> {
+    let n = match class % 5 { 0 => 0, 1 => 1, 2 => 255, 3 => 17, _ => p.below(256) as usize };
     p.bytes(n)
 }
 
-pub fn honest<S: MlDsa>(seed: u64, nkey: usize, nsign: usize, nver: usize, out: &mut Out) {
-    let mut p = Prng::new(seed, S::SET as u64);
-    for i in 0..nkey.max(1) {
-        let xi = p.arr32();
-        let (pk, sk) = S::keygen_seed(&xi);
-        let (pkb, skb) = (S::pk_bytes(&pk), S::sk_bytes(&sk));
-        if i < nkey { out.ev(json!({"ev": "KeyGen", "xi": jbytes(&xi), "pk": jbytes(&pkb), "sk": jbytes(&skb)})); }
-        for j in 0..nsign {
-            let mp = msg_of(&mut p, (i * nsign + j) as u64 + seed);
-            let rnd = p.arr32();
-            vh::trace_start();
-            let sig = S::internal_sign(&sk, &mp, rnd);
-            let att = vh::trace_take().iter().filter(|e| e.0 == "sign_attempt").count();
-            out.ev(json!({"ev": "SignInternal", "sk": jbytes(&skb), "mp": jbytes(&mp), "rnd": jbytes(&rnd), "sig": jbytes(&sig), "attempts": att}));
-            if j < nver {
-                let res = S::internal_verify(&pk, &mp, &sig);
-                out.ev(json!({"ev": "VerifyInternal", "pk": jbytes(&pkb), "mp": jbytes(&mp), "sig": jbytes(&sig), "res": res}));
-                let mut bad = sig.clone();
-                let pos = p.below(bad.len() as u64) as usize;
-                bad[pos] ^= 1 << p.below(8);
-                let res = S::internal_verify(&pk, &mp, &bad);
-                out.ev(json!({"ev": "VerifyInternal", "pk": jbytes(&pkb), "mp": jbytes(&mp), "sig": jbytes(&bad), "res": res}));
+/// The harness's own reading of M' (Algorithms 2-5); every use is re-judged by TLC (event field "mp").
+pub fn format_msg(mode: &str, ctx: &[u8], m: &[u8]) -> Vec<u8> {
+    let mut v = vec![if mode == "pure" { 0u8 } else { 1u8 }, ctx.len() as u8];
+    v.extend_from_slice(ctx);
+    match ph_of(mode) {
+        None => v.extend_from_slice(m),
+        Some(ph) => { let (oid, d, n) = vh::hash_message(m, &ph); v.extend_from_slice(&oid); v.extend_from_slice(&d[..n]); }
+    }
+    v
+}
+
+fn rnglog_ok_shape(r: &ScriptRng) -> Value { r.log_json() }
+
+// ------------------------------------------------------------------------------- C04
+pub fn keygen<S: MlDsa>(seed: u64, nfull: usize, nlite: usize, extra_seeds: &[[u8; 32]], out: &mut Out) {
+    let mut p = Prng::new(seed, 0x0400 + S::SET as u64);
+    let mut seeds: Vec<([u8; 32], bool)> = vec![];
+    for (i, s) in extra_seeds.iter().enumerate() { seeds.push((*s, i < nfull)); }
+    for i in 0..(nfull + nlite) { seeds.push((p.arr32(), i < nfull)); }
+    seeds.push(([0u8; 32], false));
+    seeds.push(([0xffu8; 32], false));
+    for (xi, full) in seeds {
+        let r = guarded(|| {
+            let (pk, sk) = S::keygen_seed(&xi);
+            let mut rng = ScriptRng::new(&xi);
+            let (pk2, sk2) = S::keygen_rng(&mut rng).expect("healthy rng");
+            (S::pk_bytes(&pk), S::sk_bytes(&sk), S::pk_bytes(&pk2), S::sk_bytes(&sk2), rnglog_ok_shape(&rng))
+        });
+        match r {
+            Ok((pkb, skb, pk2, sk2, log)) => {
+                out.ev(json!({"ev": if full { "KeyGen" } else { "KeyGenLite" }, "via": "seed", "xi": jbytes(&xi), "pk": jbytes(&pkb), "sk": jbytes(&skb)}));
+                out.ev(json!({"ev": "KeyGenBoth", "xi": jbytes(&xi), "pk": hexs(&pkb), "sk": hexs(&skb), "pk2": hexs(&pk2), "sk2": hexs(&sk2), "rnglog": log}));
             }
+            Err((loc, msg)) => out.ev(json!({"ev": "Panic", "call": "keygen", "xi": jbytes(&xi), "loc": loc, "msg": msg})),
         }
     }
 }
 
-pub fn run(a: &Args) {
+// ------------------------------------------------------------------------------- C03
+pub fn sign<S: MlDsa>(seed: u64, nfull: usize, nfactor: usize, allctx: bool, out: &mut Out) {
+    let mut p = Prng::new(seed, 0x0300 + S::SET as u64);
+    let xi = p.arr32();
+    let (_pk, sk0) = S::keygen_seed(&xi);
+    let skb = S::sk_bytes(&sk0);
+    let sk_rt = S::sk_from(&skb).expect("round trip");
+    // (ii) full recomputation: external (all four modes in rotation) and internal, both key provenances
+    for i in 0..nfull {
+        let sk = if i % 2 == 0 { &sk0 } else { &sk_rt };
+        let rnd = if i % 5 == 4 { [0u8; 32] } else { p.arr32() };
+        if i % 3 == 2 {
+            let mp = msg_of(&mut p, i as u64 + seed);
+            vh::trace_start();
+            let r = guarded(|| S::internal_sign(sk, &mp, rnd));
+            let att = vh::trace_take().iter().filter(|e| e.0 == "sign_attempt").count();
+            match r {
+                Ok(sig) => out.ev(json!({"ev": "SignInternal", "sk": jbytes(&skb), "mp": jbytes(&mp), "rnd": jbytes(&rnd), "sig": jbytes(&sig), "attempts": att})),
+                Err((loc, msg)) => out.ev(json!({"ev": "Panic", "call": "internal_sign", "loc": loc, "msg": msg})),
+            }
+        } else {
+            let mode = MODES[(i + seed as usize) % 4];
+            let m = msg_of(&mut p, i as u64 * 3 + seed);
+            let ctx = ctx_of(&mut p, i as u64 + seed);
+            let mut rng = ScriptRng::new(&rnd);
+            vh::trace_start();
+            let r = guarded(|| S::sign(sk, &mut rng, &m, &ctx, mode));
+            let att = vh::trace_take().iter().filter(|e| e.0 == "sign_attempt").count();
+            match r {
+                Ok(res) => out.ev(json!({"ev": "Sign", "sk": jbytes(&skb), "m": jbytes(&m), "ctx": jbytes(&ctx), "mode": mode, "rnd": jbytes(&rnd),
+                    "ok": res.is_ok(), "sig": jbytes(&res.unwrap_or_default()), "attempts": att, "rnglog": rng.log_json()})),
+                Err((loc, msg)) => out.ev(json!({"ev": "Panic", "call": "sign", "loc": loc, "msg": msg})),
+            }
+        }
+    }
+    // (i) factoring through the internal interface: grid of (mode, |ctx|, |M|)
+    let mut grid: Vec<(usize, usize)> = vec![]; // (ctx length, message class)
+    if allctx { for c in 0..256 { grid.push((c, c)); } }
+    for i in 0..nfactor { grid.push(([0usize, 1, 2, 127, 128, 254, 255][i % 7], i)); }
+    for (gi, (clen, mclass)) in grid.iter().enumerate() {
+        for mode in MODES {
+            if !allctx && gi % 4 != MODES.iter().position(|x| *x == mode).unwrap() % 4 && gi >= 28 { continue; }
+            let ctx = p.bytes(*clen);
+            let m = msg_of(&mut p, *mclass as u64);
+            let rnd = p.arr32();
+            let mut rng = ScriptRng::new(&rnd);
+            let r = guarded(|| {
+                let ext = S::sign(&sk0, &mut rng, &m, &ctx, mode);
+                let mp = format_msg(mode, &ctx, &m);
+                let int = S::internal_sign(&sk0, &mp, rnd);
+                (ext, mp, int)
+            });
+            match r {
+                Ok((ext, mp, int)) => out.ev(json!({"ev": "SignFactor", "mode": mode, "ctx": jbytes(&ctx), "m": jbytes(&m), "mp": jbytes(&mp),
+                    "ok": ext.is_ok(), "ext": hexs(&ext.unwrap_or_default()), "int": hexs(&int), "rnglog": rng.log_json()})),
+                Err((loc, msg)) => out.ev(json!({"ev": "Panic", "call": "sign", "loc": loc, "msg": msg})),
+            }
+        }
+    }
+    // determinism: the same inputs after unrelated intervening operations, and on a cloned /
+    // re-deserialised key object, give the same bytes
+    for i in 0..4u64 {
+        let m = msg_of(&mut p, i);
+        let rnd = p.arr32();
+        let a = S::sign(&sk0, &mut ScriptRng::new(&rnd), &m, b"ctx", MODES[i as usize % 4]).unwrap();
+        let _ = S::keygen_seed(&p.arr32());
+        let _ = S::sign(&sk_rt, &mut ScriptRng::new(&p.arr32()), b"other", b"", "pure");
+        let b = S::sign(&sk_rt.clone(), &mut ScriptRng::new(&rnd), &m, b"ctx", MODES[i as usize % 4]).unwrap();
+        out.ev(json!({"ev": "Same", "what": "sign repeated after other operations, on a round-tripped clone", "a": hexs(&a), "b": hexs(&b)}));
+    }
+}
+
+/// events from ACVP sigGen vectors run through the library (the driver passes a pre-digested file)
+pub fn acvp_sign<S: MlDsa>(path: &str, limit: usize, offset: usize, out: &mut Out) {
+    let v: Value = serde_json::from_str(&std::fs::read_to_string(path).expect("acvp file")).unwrap();
+    let mut n = 0;
+    for t in v.as_array().unwrap().iter().filter(|t| t["set"].as_u64().unwrap() as u32 == S::SET).skip(offset) {
+        if n >= limit { break; }
+        n += 1;
+        let skb = unhex(t["sk"].as_str().unwrap());
+        let mp = unhex(t["message"].as_str().unwrap());
+        let rnd: [u8; 32] = unhex(t["rnd"].as_str().unwrap()).try_into().unwrap();
+        let r = guarded(|| { let sk = S::sk_from(&skb).expect("acvp sk"); S::internal_sign(&sk, &mp, rnd) });
+        match r {
+            Ok(sig) => out.ev(json!({"ev": "SignInternal", "sk": jbytes(&skb), "mp": jbytes(&mp), "rnd": jbytes(&rnd), "sig": jbytes(&sig), "acvp_tc": t["tc"]})),
+            Err((loc, msg)) => out.ev(json!({"ev": "Panic", "call": "internal_sign", "loc": loc, "msg": msg})),
+        }
+    }
+}
+
+// ------------------------------------------------------------------------------- C02
+pub struct Forged { pub pk: Vec<u8>, pub sig: Vec<u8> }
+
+/// A signature that FIPS 204 Verify accepts for the public key (rho, t1 = 0) iff ||z|| < gamma1 - beta:
+/// c~ := H(mu || w1Encode(UseHint(h, A z))).  Built with the harness's own arithmetic.
+pub fn forge<S: MlDsa>(rho: &[u8; 32], z: &[Poly], h: &[Poly], mp: &[u8]) -> Forged {
+    let mut pk = rho.to_vec();
+    pk.resize(S::PK_LEN, 0);
+    let a_hat = S::expand_a(rho);
+    let w = refmath::mat_vec(&a_hat, z);
+    let w1: Vec<Poly> = (0..S::K).map(|i| core::array::from_fn(|n| vh::use_hint(S::GAMMA2, h[i][n], w[i][n] as i32))).collect();
+    let w1enc = S::w1_encode(&w1);
+    let tr = shake256(&[&pk], 64);
+    let mu = shake256(&[&tr, mp], 64);
+    let ct = shake256(&[&mu, &w1enc], S::LAMBDA / 4);
+    Forged { pk, sig: S::sig_encode(&ct, z, h) }
+}
+
+fn rand_z<S: MlDsa>(p: &mut Prng, bound: i32) -> Vec<Poly> {
+    (0..S::L).map(|_| core::array::from_fn(|_| p.range(-(bound as i64), bound as i64) as i32)).collect()
+}
+fn rand_h<S: MlDsa>(p: &mut Prng, weight: usize) -> Vec<Poly> {
+    let mut h: Vec<Poly> = vec![[0i32; 256]; S::K];
+    let mut placed = 0;
+    while placed < weight { let (i, n) = (p.below(S::K as u64) as usize, p.below(256) as usize); if h[i][n] == 0 { h[i][n] = 1; placed += 1; } }
+    h
+}
+
+fn emit_verify<S: MlDsa>(out: &mut Out, family: &str, pkb: &[u8], m: &[u8], sig: &[u8], ctx: &[u8], mode: &str, internal: bool) {
+    let r = guarded(|| {
+        let pk = S::pk_from(pkb).expect("every pk-length string deserialises");
+        if internal { S::internal_verify(&pk, m, sig) } else { S::verify(&pk, m, sig, ctx, mode) }
+    });
+    let mut e = if internal {
+        json!({"ev": "VerifyInternal", "family": family, "pk": jbytes(pkb), "mp": jbytes(m), "sig": jbytes(sig)})
+    } else {
+        json!({"ev": "Verify", "family": family, "pk": jbytes(pkb), "m": jbytes(m), "ctx": jbytes(ctx), "mode": mode, "sig": jbytes(sig)})
+    };
+    match &r { Ok(b) => e["res"] = json!(b), Err((loc, msg)) => e["panic"] = json!(format!("{}: {}", loc, msg)) };
+    out.ev(e);
+}
+
+/// hint-section malformations of Algorithm 21, applied to the last omega+k bytes of `sig`
+pub fn hint_mutants<S: MlDsa>(sig: &[u8], p: &mut Prng) -> Vec<(String, Vec<u8>)> {
+    let om = S::OMEGA as usize;
+    let hs = S::SIG_LEN - om - S::K;
+    let y = &sig[hs..];
+    let cnt = |i: usize| y[om + i] as usize;
+    let total = cnt(S::K - 1);
+    let mut v: Vec<(String, Vec<u8>)> = vec![];
+    let mut mk = |name: &str, f: &dyn Fn(&mut [u8])| { let mut s = sig.to_vec(); f(&mut s[hs..]); if s != sig { v.push((name.to_string(), s)); } };
+    // per-polynomial count decreasing / beyond omega, at the first, a middle and the last polynomial
+    for i in [0, S::K / 2, S::K - 1] {
+        mk(&format!("count[{}] = omega+1", i), &|y| y[om + i] = om as u8 + 1);
+        mk(&format!("count[{}] = 255", i), &|y| y[om + i] = 255);
+        if i > 0 && cnt(i - 1) > 0 { mk(&format!("count[{}] below previous", i), &|y| y[om + i] = y[om + i - 1] - 1); }
+    }
+    // index order inside a polynomial: equal and descending neighbours
+    for i in 0..S::K {
+        let lo = if i == 0 { 0 } else { cnt(i - 1) };
+        if cnt(i) >= lo + 2 {
+            mk(&format!("equal adjacent indices in poly {}", i), &|y| y[lo + 1] = y[lo]);
+            mk(&format!("descending indices in poly {}", i), &|y| y.swap(lo, lo + 1));
+            let hi = cnt(i);
+            mk(&format!("descending last pair in poly {}", i), &|y| y.swap(hi - 2, hi - 1));
+        }
+    }
+    // non-zero byte in unused slots: first unused, last unused, random unused
+    if total < om {
+        mk("non-zero first unused slot", &|y| y[total] = 1);
+        mk("non-zero last unused slot", &|y| y[om - 1] = 200);
+        let r = total + p.below((om - total) as u64) as usize;
+        mk("non-zero random unused slot", &|y| y[r] = 7);
+    }
+    // a count raised by one so that it swallows a zero padding byte (index 0 after a larger index)
+    if total < om && total > 0 { mk("last count raised over padding", &|y| y[om + S::K - 1] += 1); }
+    v
+}
+
+pub fn verify<S: MlDsa>(seed: u64, nacc: usize, nrand: usize, stress: bool, out: &mut Out) {
+    let mut p = Prng::new(seed, 0x0200 + S::SET as u64);
+    let (g1, beta, om) = (S::GAMMA1, S::beta(), S::OMEGA as usize);
+    // family 1: honest signatures in all modes, + family 4 variations around them
+    let xi = p.arr32();
+    let (pk, sk) = S::keygen_seed(&xi);
+    let pkb = S::pk_bytes(&pk);
+    for i in 0..nacc.max(1) {
+        let mode = MODES[i % 4];
+        let m = msg_of(&mut p, i as u64 + seed);
+        let ctx = ctx_of(&mut p, i as u64);
+        let sig = S::sign(&sk, &mut ScriptRng::new(&p.arr32()), &m, &ctx, mode).unwrap();
+        emit_verify::<S>(out, "1 honest", &pkb, &m, &sig, &ctx, mode, false);
+        if i == 0 {
+            // 4: commitment hash bit, wrong mode / ph / ctx / message, over-long contexts
+            let mut s2 = sig.clone(); s2[p.below((S::LAMBDA / 4) as u64) as usize] ^= 1 << p.below(8);
+            emit_verify::<S>(out, "4 c~ bit flipped", &pkb, &m, &s2, &ctx, mode, false);
+            emit_verify::<S>(out, "4 other mode", &pkb, &m, &sig, &ctx, MODES[(i + 1) % 4], false);
+            let mut c2 = ctx.clone(); c2.push(0);
+            if c2.len() <= 255 { emit_verify::<S>(out, "4 ctx extended", &pkb, &m, &sig, &c2, mode, false); }
+            for n in [256usize, 257, 511, 512] {
+                let long = vec![0x5au8; n];
+                emit_verify::<S>(out, "4 ctx too long", &pkb, &m, &sig, &long, mode, false);
+            }
+            // 3 on an honest base: every hint malformation class
+            for (name, s3) in hint_mutants::<S>(&sig, &mut p) {
+                emit_verify::<S>(out, &format!("3 hint (honest base): {}", name), &pkb, &m, &s3, &ctx, mode, false);
+            }
+        }
+    }
+    // family 2: t1 = 0 forgeries with one coefficient of z at the norm boundary
+    let rho = p.arr32();
+    let edge = g1 - beta;
+    let places = [(0usize, 0usize), (0, 255), (S::L - 1, 0), (S::L - 1, 255)];
+    let vals: [(i32, &str); 6] = [(edge - 1, "gamma1-beta-1 (accept)"), (-(edge - 1), "-(gamma1-beta-1) (accept)"), (edge, "gamma1-beta (reject)"),
+                                 (-edge, "-(gamma1-beta) (reject)"), (g1, "gamma1 (reject)"), (-g1 + 1, "-gamma1+1 (reject)")];
+    let mut k = 0;
+    for (vi, (val, name)) in vals.iter().enumerate() {
+        for (pi, (j, n)) in places.iter().enumerate() {
+            // accepting cases cost a full TLC evaluation: rotate the placement instead of taking the product
+            if vi < 2 && (pi + vi + seed as usize) % 4 >= nacc.min(4) { continue; }
+            let mut z = rand_z::<S>(&mut p, edge - 1);
+            z[*j][*n] = *val;
+            let h = rand_h::<S>(&mut p, [0usize, 3, om][k % 3]);
+            k += 1;
+            let mp = msg_of(&mut p, k as u64);
+            let f = forge::<S>(&rho, &z, &h, &mp);
+            emit_verify::<S>(out, &format!("2 forged t1=0, z[{}][{}] = {}", j, n, name), &f.pk, &mp, &f.sig, &[], "pure", true);
+        }
+    }
+    // family 3 on a forged base with hint weight exactly omega (accept) and its malformations (reject)
+    {
+        let z = rand_z::<S>(&mut p, edge - 1);
+        let h = rand_h::<S>(&mut p, om);
+        let mp = msg_of(&mut p, 9);
+        let f = forge::<S>(&rho, &z, &h, &mp);
+        emit_verify::<S>(out, "3 forged, hint weight = omega (accept)", &f.pk, &mp, &f.sig, &[], "pure", true);
+        for (name, s3) in hint_mutants::<S>(&f.sig, &mut p) {
+            emit_verify::<S>(out, &format!("3 hint (forged base): {}", name), &f.pk, &mp, &s3, &[], "pure", true);
+        }
+        // weight omega concentrated in one polynomial / spread with empty polynomials
+        let mut h1: Vec<Poly> = vec![[0i32; 256]; S::K];
+        for n in 0..om { h1[S::K - 1][255 - n] = 1; }
+        let f1 = forge::<S>(&rho, &z, &h1, &mp);
+        emit_verify::<S>(out, "3 forged, omega hints all in the last polynomial (accept)", &f1.pk, &mp, &f1.sig, &[], "pure", true);
+    }
+    // random byte strings as signatures (and as public keys)
+    for i in 0..nrand {
+        let sig = p.bytes(S::SIG_LEN);
+        let pkr = if i % 2 == 0 { pkb.clone() } else { p.bytes(S::PK_LEN) };
+        emit_verify::<S>(out, "random bytes", &pkr, &p.bytes(5), &sig, &[], "pure", false);
+    }
+    // family 5: lazy-reduction stress (sparse-coset construction, DESIGN section 5 F2)
+    if stress && S::SET == 87 {
+        let w1: [[i32; 4]; 7] = [[275033, 332676, -481626, 317000], [383811, -268708, 283131, 65421], [-209744, -399416, -236512, 227585],
+            [163466, 45434, -328266, -153360], [445643, 455576, -439727, 402819], [-176246, -373103, -172428, -296322], [-209730, 255762, -124882, -306448]];
+        let w2: [[i32; 4]; 7] = [[275033, 332676, -481626, 317000], [-493341, -472940, 56262, 92665], [147053, -241238, -269924, 480673],
+            [-406821, -337689, 293037, -77000], [206793, 408304, -461119, 368242], [482199, 414728, 69784, -457438], [259537, -207131, -186434, -488483]];
+        for (wi, w) in [w1, w2].iter().enumerate() {
+            let z: Vec<Poly> = (0..7).map(|j| { let mut a = [0i32; 256]; for c in 0..4 { a[64 * c] = w[j][c]; } a }).collect();
+            let h: Vec<Poly> = vec![[0i32; 256]; S::K];
+            let m = [1u8, 2, 3];
+            let f = forge::<S>(&[7u8; 32], &z, &h, &format_msg("pure", &[], &m));
+            emit_verify::<S>(out, &format!("5 aligned NTT residues, witness {}", wi + 1), &f.pk, &m, &f.sig, &[], "pure", false);
+        }
+    }
+}
+
+/// re-execute the call recorded in a replay file against the current library
+pub fn replay_event<S: MlDsa>(e: &Value, out: &mut Out) {
+    let b = |k: &str| vbytes(&e[k]);
+    match e["ev"].as_str().unwrap() {
+        "Verify" => emit_verify::<S>(out, "replay", &b("pk"), &b("m"), &b("sig"), &b("ctx"), e["mode"].as_str().unwrap(), false),
+        "VerifyInternal" => emit_verify::<S>(out, "replay", &b("pk"), &b("mp"), &b("sig"), &[], "pure", true),
+        "KeyGen" | "KeyGenLite" | "KeyGenBoth" => { let xi: [u8; 32] = b("xi").try_into().unwrap(); keygen::<S>(0, 0, 0, &[xi], out); }
+        "SignInternal" => {
+            let rnd: [u8; 32] = b("rnd").try_into().unwrap();
+            let (skb, mp) = (b("sk"), b("mp"));
+            match guarded(|| { let sk = S::sk_from(&skb).expect("sk"); S::internal_sign(&sk, &mp, rnd) }) {
+                Ok(sig) => out.ev(json!({"ev": "SignInternal", "sk": jbytes(&skb), "mp": jbytes(&mp), "rnd": jbytes(&rnd), "sig": jbytes(&sig)})),
+                Err((loc, msg)) => out.ev(json!({"ev": "Panic", "call": "internal_sign", "loc": loc, "msg": msg})),
+            }
+        }
+        "Sign" | "SignFactor" => {
+            let (skb, m, ctx, mode) = (if e["sk"].is_array() { b("sk") } else { vec![] }, b("m"), b("ctx"), e["mode"].as_str().unwrap().to_string());
+            let rnd = if e["rnd"].is_array() { b("rnd") } else { vec![0u8; 32] };
+            let r = guarded(|| {
+                let sk = if skb.is_empty() { S::keygen_seed(&[1u8; 32]).1 } else { S::sk_from(&skb).expect("sk") };
+                let mut rng = ScriptRng::new(&rnd);
+                let res = S::sign(&sk, &mut rng, &m, &ctx, &mode);
+                (S::sk_bytes(&sk), res, rng.log_json())
+            });
+            match r {
+                Ok((skb, res, log)) => out.ev(json!({"ev": "Sign", "sk": jbytes(&skb), "m": jbytes(&m), "ctx": jbytes(&ctx), "mode": mode, "rnd": jbytes(&rnd),
+                    "ok": res.is_ok(), "sig": jbytes(&res.unwrap_or_default()), "rnglog": log})),
+                Err((loc, msg)) => out.ev(json!({"ev": "Panic", "call": "sign", "loc": loc, "msg": msg})),
+            }
+        }
+        other => panic!("cannot replay event kind {}", other),
+    }
+}
+
+pub fn run(sub: &str, a: &Args) {
+    if sub == "replayf" {
+        let v: Value = serde_json::from_str(&std::fs::read_to_string(a.s("file", "")).expect("replay file")).unwrap();
+        let set = v["replay"]["set"].as_u64().unwrap() as u32;
+        let mut out = Out::create(&format!("{}/replay_{}.ndjson", a.s("out", "/verif/work/f"), set));
+        for_set!(set, replay_event(&v["replay"]["event"], &mut out));
+        println!("replay set={} events={}", set, out.finish());
+        return;
+    }
     let seed = a.u("seed", 1);
     for set in a.sets() {
-        let mut out = Out::create(&format!("{}/f_{}.ndjson", a.s("out", "/verif/work/f"), set));
-        let (nk, ns, nv) = (a.u("nkey", 1) as usize, a.u("nsign", 1) as usize, a.u("nver", 1) as usize);
-        for_set!(set, honest(seed, nk, ns, nv, &mut out));
-        println!("fcases set={} events={}", set, out.finish());
+        let mut out = Out::create(&format!("{}/{}_{}.ndjson", a.s("out", "/verif/work/f"), sub, set));
+        match sub {
+            "keygen" => {
+                let extra: Vec<[u8; 32]> = a.s("seeds", "").split(',').filter(|s| s.len() == 64).map(|s| unhex(s).try_into().unwrap()).collect();
+                let (nf, nl) = (a.u("nfull", 1) as usize, a.u("nlite", 4) as usize);
+                for_set!(set, keygen(seed, nf, nl, &extra, &mut out))
+            }
+            "sign" => {
+                let (nf, nfa, all) = (a.u("nfull", 2) as usize, a.u("nfactor", 28) as usize, a.u("allctx", 0) == 1);
+                for_set!(set, sign(seed, nf, nfa, all, &mut out));
+                let acvp = a.s("acvp", "");
+                if !acvp.is_empty() { let (lim, off) = (a.u("nacvp", 1) as usize, a.u("acvpoff", 0) as usize); for_set!(set, acvp_sign(&acvp, lim, off, &mut out)); }
+            }
+            "verify" => {
+                let (na, nr, st) = (a.u("nacc", 2) as usize, a.u("nrand", 4) as usize, a.u("stress", 1) == 1);
+                for_set!(set, verify(seed, na, nr, st, &mut out))
+            }
+            _ => panic!("unknown"),
+        }
+        println!("{} set={} events={}", sub, set, out.finish());
     }
 }
